@@ -1,6 +1,7 @@
 import Lean.Data.Json
 import MontePyVerif.Spec.Card
 import MontePyVerif.Model.Dispatch
+import MontePyVerif.Model.LexNum
 /-! Line-protocol driver for C12: one JSON request per input line, one JSON answer per output line.
 
   {"op":"tables"}                                   → the pinned terminal sets of Spec.Card (the generator draws from THESE)
@@ -136,6 +137,39 @@ def decData (j : Json) : R DataCard := do
   pure { lead := ← fGap j "lead", classifier := ← decClassifier (← j.getObjVal? "classifier"), g0 := ← fGap j "g0",
          body := body }
 
+def decTotal (j : Json) : R (Option (String × Gap)) := do
+  if j.isNull then pure none else pure (some (← strAt j 0, ← gapAt j 1))
+
+def decTallyItem (j : Json) : R TallyItem := do
+  match (← strAt j 0) with
+  | "bins" => pure (.bins (← entriesAt j 1))
+  | "group" => pure (.group (← gapAt j 1) (← entriesAt j 2) (← gapAt j 3))
+  | o => throw s!"bad tally item {o}"
+
+def decSdefParam (j : Json) : R SdefParam := do
+  let v ← arrAt j 2
+  let val ← match (← strAt v 0) with
+    | "nums" => pure (SdefVal.nums (← entriesAt v 1))
+    | "dist" => pure (SdefVal.dist (← strAt v 1) (← strAt v 2) (← gapAt v 3))
+    | "particle" => pure (SdefVal.particle (← strAt v 1) (← gapAt v 2))
+    | o => throw s!"bad sdef value {o}"
+  pure ⟨← strAt j 0, ← decSep (← arrAt j 1), val⟩
+
+def decXCard (j : Json) : R XCard := do
+  let b ← j.getObjVal? "body"
+  let body ← match (← strAt b 0) with
+    | "tally" => do
+      let its ← (← arrAt b 1).getArr?
+      pure (XBody.tally (← its.toList.mapM decTallyItem) (← decTotal (← arrAt b 2)))
+    | "segments" => pure (XBody.segments (← entriesAt b 1) (← decTotal (← arrAt b 2)))
+    | "sdef" => do
+      let ps ← (← arrAt b 1).getArr?
+      pure (XBody.sdef (← ps.toList.mapM decSdefParam))
+    | "lettered" => pure (XBody.lettered (← strAt b 1) (← gapAt b 2) (← entriesAt b 3))
+    | o => throw s!"bad xbody {o}"
+  pure { lead := ← fGap j "lead", classifier := ← decClassifier (← j.getObjVal? "classifier"), g0 := ← fGap j "g0",
+         body := body }
+
 def specAnswer (wf nz : Bool) (words classes : List String) : Json :=
   Json.mkObj [("wf", toJson wf), ("nz", toJson nz), ("words", toJson words), ("classes", toJson classes)]
 
@@ -164,6 +198,9 @@ def runCase (j : Json) : R Json := do
   | "data" =>
     let d ← decData (← j.getObjVal? "ast")
     pure (specAnswer d.WF d.interpEndNonzero d.render d.classes)
+  | "xcard" =>
+    let d ← decXCard (← j.getObjVal? "ast")
+    pure (specAnswer d.WF true d.render d.classes)
   | "dispatch_cell" =>
     let ps ← (← j.getObjVal? "params").getArr?
     let ps ← ps.toList.mapM (fun p => do pure (Param.mk (← strAt p 0) (← strAt p 1) (← strAt p 2)))
@@ -187,6 +224,12 @@ def runCase (j : Json) : R Json := do
     | .ok c => pure (Json.mkObj [("ok", toJson c)])
     | .error .malformedInput => pure (Json.mkObj [("err", "MalformedInputError")])
     | .error .valueError => pure (Json.mkObj [("err", "ValueError")])
+  | "lexnum" =>
+    let w ← fStr j "word"
+    let nuc ← (← j.getObjVal? "nuclides").getBool?
+    match MontePyVerif.LexNum.classifyString nuc w with
+    | some (t, n) => pure (Json.arr #[toJson t, toJson n])
+    | none => pure Json.null
   | "lex" =>
     let w ← fStr j "word"
     match (← fStr j "lexer") with
